@@ -227,8 +227,12 @@ func execHybrid(c hyCase, x *verifkit.Ctx, c15 bool) (fail *verifkit.Failure) {
 			}
 			noteMu.Unlock()
 		}})
-	owed := map[[2]int]bool{}     // Deletes that took a memory-resident entry with nothing else going on: exactly one REMOVED call each
-	optional := map[[2]int]bool{} // Deletes issued while demotions may be in flight: the entry may have left memory first (0 or 1 calls)
+	// counted per (key, value): the same value can be taken out of memory more than once (a Delete whose
+	// secondary Delete failed leaves the copy there, a Get promotes it again, the next Delete takes it
+	// again - first judged per pair as a bool, which raised a false alarm in the thorough tier once the
+	// 'failing Delete' scenario existed, section 10)
+	owed := map[[2]int]int{}     // Deletes that took a memory-resident entry with nothing else going on: exactly one REMOVED call each
+	optional := map[[2]int]int{} // Deletes issued while demotions may be in flight: the entry may have left memory first (0 or 1 calls each)
 	var owedMu sync.Mutex
 	// doDelete is the only way the harness deletes; strict = the workers are settled first, so a resident
 	// entry is really taken out of memory by this call
@@ -250,9 +254,9 @@ func execHybrid(c hyCase, x *verifkit.Ctx, c15 bool) (fail *verifkit.Failure) {
 		if has {
 			owedMu.Lock()
 			if strict && err == nil {
-				owed[kv] = true
+				owed[kv]++
 			} else {
-				optional[kv] = true
+				optional[kv]++
 			}
 			owedMu.Unlock()
 		}
@@ -1072,19 +1076,16 @@ func execHybrid(c hyCase, x *verifkit.Ctx, c15 bool) (fail *verifkit.Failure) {
 			return f
 		}
 		noteMu.Lock()
-		for kv := range owed {
-			if n := removed[kv]; n != 1 {
+		for kv, lo := range owed {
+			if n := removed[kv]; n < lo || n > lo+optional[kv] {
 				noteMu.Unlock()
-				return failf("notify-hybrid/removed-count", "Delete(%d) took the resident entry with value %d out of memory; the listener was called %d times with REMOVED for it (entry pool: %v)", kv[0], kv[1], n, c.Pool)
+				return failf("notify-hybrid/removed-count", "%d Delete(%d) calls took the resident entry with value %d out of memory (%d more may have); the listener was called %d times with REMOVED for it (entry pool: %v)", lo, kv[0], kv[1], optional[kv], n, c.Pool)
 			}
 		}
 		for kv, n := range removed {
-			if optional[kv] && n <= 1 {
-				continue
-			}
-			if !owed[kv] {
+			if n > owed[kv]+optional[kv] {
 				noteMu.Unlock()
-				return failf("notify-hybrid/unexpected-removed", "listener called %d times with REMOVED for (key %d, value %d), which no completed Delete took out of memory", n, kv[0], kv[1])
+				return failf("notify-hybrid/unexpected-removed", "listener called %d times with REMOVED for (key %d, value %d); Deletes that took or may have taken that entry out of memory: %d", n, kv[0], kv[1], owed[kv]+optional[kv])
 			}
 		}
 		noteMu.Unlock()
